@@ -82,6 +82,10 @@ class FunTranslator:
                 return ('true' if e.value else 'false'), 'bool'
             if isinstance(e.value, int):
                 return zlit(e.value), 'Z'
+            if isinstance(e.value, (bytes, str)):
+                # a bytes / ASCII str literal is the list of its byte values
+                raw = e.value if isinstance(e.value, bytes) else e.value.encode('ascii')
+                return '[' + '; '.join(str(x) for x in raw) + ']', 'bytes'
             self.err(e, 'unsupported constant %r' % (e.value,))
         if isinstance(e, ast.Name):
             if e.id in env:
@@ -125,6 +129,25 @@ class FunTranslator:
             parts = []
             left = e.left
             for op, right in zip(e.ops, e.comparators):
+                a, ta = self.expr(left, env)
+                if ta == 'bytes':
+                    # bytes/str equality and membership in a tuple of literals
+                    if isinstance(op, (ast.In, ast.NotIn)) and isinstance(right, ast.Tuple) and right.elts:
+                        alts = [self.expr(x, env) for x in right.elts]
+                    elif isinstance(op, (ast.Eq, ast.NotEq)):
+                        alts = [self.expr(right, env)]
+                    else:
+                        self.err(e, 'unsupported comparison on bytes')
+                    if any(t != 'bytes' for _, t in alts):
+                        self.err(e, 'bytes compared with non-bytes')
+                    out = '(py_bytes_eqb %s %s)' % (a, alts[0][0])
+                    for x, _ in alts[1:]:
+                        out = '(orb %s (py_bytes_eqb %s %s))' % (out, a, x)
+                    if isinstance(op, (ast.NotIn, ast.NotEq)):
+                        out = '(negb %s)' % out
+                    parts.append(out)
+                    left = right
+                    continue
                 a = self.zexpr(left, env)
                 b = self.zexpr(right, env)
                 if isinstance(op, ast.NotEq):
@@ -605,6 +628,25 @@ ITEMS = [
          objvars={'c': 'self.children'},
          out_lists=['children_offset_to_here', 'children_extents_to_here', 'children_index_in_parent'],
          file='GenObj.v'),
+    # Rock Ridge entry lengths (static methods of the record classes): Model/RREntries.v and Model/RRPlace.v use
+    # hand-written len_* definitions; Proofs/RRGenProofs.v proves them equal to these translations
+] + [Item('pycdlib/rockridge.py', '%s.length' % c, 'rr_%s_length' % n, [], file='GenRR.v')
+     for c, n in (('RRSPRecord', 'sp'), ('RRRRRecord', 'rr'), ('RRCERecord', 'ce'), ('RRESRecord', 'es'), ('RRPNRecord', 'pn'),
+                  ('RRCLRecord', 'cl'), ('RRPLRecord', 'pl'), ('RRRERecord', 're'), ('RRSTRecord', 'st'))] + [
+    Item('pycdlib/rockridge.py', 'RRPXRecord.length', 'rr_px_length', [('rr_version', 'bytes')], partial=True, file='GenRR.v'),
+    Item('pycdlib/rockridge.py', 'RRSFRecord.length', 'rr_sf_length', [('rr_version', 'bytes')], partial=True, file='GenRR.v'),
+    Item('pycdlib/rockridge.py', 'RRERRecord.length', 'rr_er_length', [('ext_id', 'bytes'), ('ext_des', 'bytes'), ('ext_src', 'bytes')],
+         file='GenRR.v'),
+    Item('pycdlib/rockridge.py', 'RRNMRecord.length', 'rr_nm_length', [('rr_name', 'bytes')], file='GenRR.v'),
+    Item('pycdlib/rockridge.py', 'RRPDRecord.length', 'rr_pd_length', [('padding', 'bytes')], file='GenRR.v'),
+    Item('pycdlib/rockridge.py', 'RRSLRecord.Component.length', 'rr_sl_component_length', [('symlink_component', 'bytes')], file='GenRR.v'),
+    Item('pycdlib/rockridge.py', 'RRSLRecord.header_length', 'rr_sl_header_length', [], file='GenRR.v'),
+    Item('pycdlib/rockridge.py', 'RRSLRecord.maximum_component_area_length', 'rr_sl_max_component_area', [],
+         calls={'RRSLRecord.header_length': ('rr_sl_header_length', Zt)}, file='GenRR.v'),
+    Item('pycdlib/rockridge.py', 'RRALRecord.Component.length', 'rr_al_component_length', [('attr', 'bytes')], file='GenRR.v'),
+    Item('pycdlib/rockridge.py', 'RRALRecord.header_length', 'rr_al_header_length', [], file='GenRR.v'),
+    Item('pycdlib/rockridge.py', 'RRALRecord.maximum_component_area_length', 'rr_al_max_component_area', [],
+         calls={'RRALRecord.header_length': ('rr_al_header_length', Zt)}, file='GenRR.v'),
 ]
 
 
@@ -673,6 +715,10 @@ Local Open Scope Z_scope.
 '''
 
 PRELUDE_FUN = '''From PV.Base Require Import Prim.
+From PV.Gen Require Import GenConst.
+'''
+
+PRELUDE_RR = '''From PV.Base Require Import Prim PyBytes.
 From PV.Gen Require Import GenConst.
 '''
 
@@ -755,6 +801,7 @@ def generate(repo):
 
     funs = [HEADER, PRELUDE_FUN]
     objs = [HEADER, PRELUDE_OBJ]
+    rrs = [HEADER, PRELUDE_RR]
     for it in ITEMS:
         t = tree(it.path)
         if it.coqname == 'gmtoffset_from_tm':
@@ -765,8 +812,9 @@ def generate(repo):
                 raise TranslationError('%s: function %s not found' % (it.path, it.qual))
             txt = FunTranslator(it, fn, t, cls).translate()
         items[it.coqname] = txt
-        (objs if it.file == 'GenObj.v' else funs).append('(* %s :: %s *)\n%s' % (it.path, it.qual, txt))
-    return {'GenConst.v': '\n'.join(const), 'GenFun.v': '\n'.join(funs), 'GenObj.v': '\n'.join(objs)}, items
+        {'GenObj.v': objs, 'GenRR.v': rrs}.get(it.file, funs).append('(* %s :: %s *)\n%s' % (it.path, it.qual, txt))
+    return {'GenConst.v': '\n'.join(const), 'GenFun.v': '\n'.join(funs), 'GenObj.v': '\n'.join(objs),
+            'GenRR.v': '\n'.join(rrs)}, items
 
 
 def regenerate(repo, outdir):
